@@ -94,7 +94,10 @@ fn shuttle_config(max_steps: usize) -> shuttle::Config {
     cfg
 }
 
-pub const MAX_STEPS: usize = 400_000;
+/// Scheduling points per execution before it counts as not returning. Typical executions take
+/// 1-5 k; the bound is far above the longest legitimate run seen (a few 100 k under uniform random
+/// scheduling with spinning workers), so that reaching it means a livelock.
+pub const MAX_STEPS: usize = 3_000_000;
 
 struct Current {
     case: Arc<Case>,
